@@ -140,6 +140,7 @@ class Opaque:
 # ----------------------------------------------------------------------------- context
 _TSORT = None
 _FSORT = {}
+_OBJ = {}
 
 
 class Ctx:
@@ -159,6 +160,16 @@ class Ctx:
         self.T, tvals = _TSORT
         self.tval = dict(zip(SUPPORTED + ["<unsup>", "<unsup2>"], tvals))
         self.BB = z3.DeclareSort("BlackBoxObj")
+        # objects registered in a pysat IDPool: node names, and the tuple keys of the parity auxiliaries
+        global _OBJ
+        key = str(self.Name)
+        if key not in _OBJ:
+            O = z3.Datatype("PoolObj_" + key)
+            O.declare("nm", ("nm_of", self.Name))
+            O.declare("xorpair", ("xp_a", O), ("xp_b", O))
+            O.declare("xorinv", ("xi_n", self.Name))
+            _OBJ[key] = O.create()
+        self.Obj = _OBJ[key]
         self.lits = {}
         self.templates = {}
         self.template_inverse = {}
@@ -292,10 +303,11 @@ class Ctx:
             c = fn(*scope)
         else:
             c = z3.Const(f"{tag}!{k}", z3.IntSort())
-        x, y = self.fresh_name("cx"), self.fresh_name("cy")
+        x, y, w = self.fresh_name("cx"), self.fresh_name("cy"), self.fresh_name("cw")
         body = z3.And(c >= 0,
                       (c == 0) == z3.Not(z3.Exists([x], mem(x))),
-                      (c <= 1) == z3.ForAll([x, y], z3.Implies(z3.And(mem(x), mem(y)), x == y)))
+                      (c <= 1) == z3.ForAll([x, y], z3.Implies(z3.And(mem(x), mem(y)), x == y)),
+                      (c <= 2) == z3.ForAll([x, y, w], z3.Implies(z3.And(mem(x), mem(y), mem(w)), z3.Or(x == y, x == w, y == w))))
         self._emit(z3.ForAll(scope, body) if scope else body, bool(scope))
         return c
 
